@@ -101,6 +101,12 @@ impl<T: Write + Read + Seek> E57Writer<T> {
         self.check_not_finalized()?;
         Extension::validate_name(&extension.namespace)?;
         Extension::validate_url(&extension.url, &self.extensions)?;
+        if self.extensions.len() >= crate::xml::MAX_EXTENSIONS {
+            Error::invalid(format!(
+                "No more than {} extensions can be registered for a file",
+                crate::xml::MAX_EXTENSIONS
+            ))?
+        }
         if self
             .extensions
             .iter()
